@@ -74,12 +74,13 @@ def script_for(name, kind, r, model):
         lines.append('touch "mark-$(echo "%s|%s" | sha1sum | cut -c1-10)"' % (tok, mv))
     if kind == "package":
         for tname, t in sorted((r.get("ptools") or {}).items()):
-            lines.append("mkdir -p %s" % t.get("path", "bin"))
-            # the tool's behaviour depends on everything its package consumed (its manifest), not only on the recipe
-            lines.append("cat > %s/tool-%s <<'EOT'\n#!/bin/sh\necho \"id-%s-%s $(sha1sum < \"$(dirname \"$0\")/../manifest.txt\" | cut -c1-12)\"\nEOT\nchmod +x %s/tool-%s"
-                         % (t.get("path", "bin"), tname, tname, tok, t.get("path", "bin"), tname))
-            for l in t.get("libs", []):
-                lines.append("mkdir -p %s; echo lib-%s > %s/lib.txt" % (l, tok, l))
+            # the script is independent of the provideTools settings (path, libs, environment): both candidate directories are populated
+            lines.append("mkdir -p bin bin2 lib lib2")
+            for pth in ("bin", "bin2"):
+                # the tool's behaviour depends on everything its package consumed (its manifest), not only on the recipe
+                lines.append("cat > %s/tool-%s <<'EOT'\n#!/bin/sh\necho \"id-%s-%s $(sha1sum < \"$(dirname \"$0\")/../manifest.txt\" | cut -c1-12)\"\nEOT\nchmod +x %s/tool-%s"
+                             % (pth, tname, tname, tok, pth, tname))
+            lines.append("echo lib-%s > lib/lib.txt; echo lib2-%s > lib2/lib.txt" % (tok, tok))
     if model.get("evlog"):
         lines.append('echo "EXEC %s %s $PWD" >> "${VERIF_EVLOG:-/dev/null}"' % (name, kind))
     inc = r.get("includes")
@@ -323,7 +324,7 @@ def gen_model(rnd, n=6, features=()):
             r["cdet"] = True if "shared" in f else rnd.random() < 0.7
         if "tools" in f and i > 0 and rnd.random() < 0.3:
             tn = "t%d" % i
-            r["ptools"] = {tn: {"path": "bin", "libs": ["lib"] if rnd.random() < 0.4 else [], "env": ({"TE": rnd.choice(VALS)} if rnd.random() < 0.3 else {})}}
+            r["ptools"] = {tn: {"path": "bin", "libs": rnd.choice([[], [], ["lib"], ["lib2"], ["lib", "lib2"], ["lib2", "lib"]]), "env": ({"TE": rnd.choice(VALS)} if rnd.random() < 0.3 else {})}}
         if "pdeps" in f and r["depends"] and rnd.random() < 0.3:
             r["pdeps"] = ["*"]      # refined below (after multiPackage names are known)
         if "includes" in f and rnd.random() < 0.4:
